@@ -231,7 +231,26 @@ static bool setup_space(const std::string& space, const Args& a, bool thorough, 
         std::vector<int> modes;
         std::string ms = a.str("modes", space == "ladder" ? "1,2,3,4" : "1,2");
         for (char ch : ms) if (ch >= '0' && ch <= '9') modes.push_back(ch - '0');
-        build_pads(lo, hi, step, modes, (size_t)a.num("rich", thorough ? 8 : 4), (int)a.num("only-rich", -1));
+        int onlyRich = (int)a.num("only-rich", -1);
+        if (a.has("align-window") && onlyRich >= 0) {
+            // ladder around the pad length at which the long value (> one block) ends exactly on a block boundary: the value's start offset
+            // does not depend on its length, so probe it once and solve start + 2*L = 0 (mod 8192) for the smallest L > 4096
+            Ctx dummy;
+            Pool P;
+            GCase probe = pad_case(RICH[onlyRich], 2, 4200);
+            std::string sp, exc;
+            if (!load_case(probe, P.p, dummy) || !pool_serialize(P.p, sp, exc)) { fprintf(stderr, "align-window probe failed\n"); exit(2); }
+            std::string run(400, 0);
+            for (size_t i = 0; i < run.size(); i += 2) run[i] = 'x';
+            size_t st = sp.find(run);
+            if (st == std::string::npos) { fprintf(stderr, "align-window: pad value not found in stream\n"); exit(2); }
+            int L = (int)(((8192 - st % 8192) % 8192) / 2);
+            while (L <= 4096) L += 4096;
+            int W = (int)a.num("align-window", 32);
+            lo = L - W; hi = L + W + 1; step = 1;
+            R.extra_json += ",\"aligned_pad_length\":" + std::to_string(L) + ",\"value_start_offset\":" + std::to_string(st);
+        }
+        build_pads(lo, hi, step, modes, (size_t)a.num("rich", thorough ? 8 : 4), onlyRich);
         g_sax_only = a.num("sax-only", 0) != 0;
         R.total = PADS.size();
         R.fn = space == "ladder" ? run_ladder_case : run_trunc_case;
